@@ -176,8 +176,16 @@ def main(tier, seed, replay=None):
         for (M, P) in combos if tier != "quick" else combos[: 2 + dof % 2]:
             k += 1
             sc = "f32" if k % 5 == 0 else "f64"
-            cases.append(statsrun.gen_stats_case(rng, M, P, M + P + dof, scalar=sc, weights=["none", "pos", "zeros", "neg"][k % 4] if dof > 2 else ["none", "pos", "neg"][k % 3], noise=0.1,
+            cases.append(statsrun.gen_stats_case(rng, M, P, M + P + dof + (1 if k % 4 == 1 else 0), scalar=sc, weights=["none", "pos", "zeros", "neg"][k % 4] if dof > 2 else ["none", "pos", "neg"][k % 3], noise=0.1,
                                                  quant=(8 if k % 3 else None), probs=PROBS + BAD + (EDGE if sc == "f64" else [])))
+    for k2, c in enumerate(cases):
+        if k2 % 4 == 1 and not c["model"].get("builder_made"):
+            # the model (every basis function and every derivative) is pinned to zero at one sample: its Jacobian row is exactly
+            # zero, the band radius there must be exactly 0 (not 0/0); N was enlarged by one for these cases
+            rs = [1.0] * c["meta"]["N"]
+            rs[rng.randrange(c["meta"]["N"])] = 0.0
+            c["model"]["rowscale"] = [hx(v, c["scalar"]) for v in rs]
+            c["meta"]["zero_row"] = True
     results, idx, hist, nerr = c13.run_stats_values(run, "C14", cases, binp, (20, 29, 30, 31), "confidence band")
     # release profile (no debug assertions / overflow checks) on every second case
     _, _, rhist, _ = c13.run_stats_values(run, "C14", [c for k, c in enumerate(cases) if k % 2 == 0], build_harness("release"), (20, 29, 30, 31),
@@ -255,10 +263,19 @@ def main(tier, seed, replay=None):
             continue
         cn = math.sqrt(sum(v * v for col in cov for v in col))
         clear = []
+        zero_rows = []
         for i in range(c["meta"]["N"]):
             j = [phi[k][i] for k in range(len(phi))] + [dc[i] for dc in dcs]
             s2 = sum(j[a] * cov[b][a] * j[b] for a in range(q) for b in range(q))
             clear.append(s2 > 1e-6 * sum(v * v for v in j) * cn)
+            if all(v == 0 for v in j):
+                zero_rows.append(i)
+        # a Jacobian row that is exactly zero: sigma_i = sqrt(0) = 0 whatever the covariance, and every band radius is 0 there
+        badz = [i for i in zero_rows if us[i] != 0.0]
+        if badz:
+            run.violation("confidence sigma at sample %d is %r although row %d of the model-function Jacobian is exactly zero (expected 0)"
+                          % (badz[0], us[badz[0]], badz[0]), {"case": c, "usigma": st["usigma"], "zero_rows": zero_rows})
+            continue
         bad = [i for i in range(c["meta"]["N"]) if clear[i] and ((us[i] != us[i]) or us[i] < 0 or us[i] == float("inf"))]
         if bad:
             run.violation("confidence sigma sqrt(j_i^T Cov j_i) is not finite / negative at sample %d although the quadratic form is clearly positive (weights: %s)"
